@@ -2,7 +2,7 @@
 C14 — file-system post-conditions.  Import-free executable model.
 
 Part 1 (ASSUMPTION, the kernel contract; exercised against the running kernel by checks/c14.py):
-a small POSIX tree and the syscalls tiny-std/src/fs.rs uses, as total functions with errno-classified
+a small POSIX tree (directories, files, symlinks, fifos, sockets, character and block devices) and the syscalls tiny-std/src/fs.rs uses, as total functions with errno-classified
 results.  Modelled domain: paths whose components are ordinary names (no `.`/`..`), no symlink is
 traversed or followed, no fifo is opened; everything else yields the outcome `E.unmodelled`.
 
@@ -20,15 +20,21 @@ namespace TinyVerif.Fs
 abbrev Bytes := List Nat
 abbrev Name := List Nat
 
+/-- node kinds beyond dir/file/symlink/fifo that can sit at a path: unix socket, character device, block device -/
+inductive Special where
+  | sock | chr | blk
+  deriving DecidableEq, Repr
+
 inductive Node where
   | dir (es : List (Name × Node))
   | file (b : Bytes)
   | symlink (t : Bytes)
   | fifo
+  | special (s : Special)
 
 /-- what an observer sees at one path (directories without their children) -/
 inductive Kind where
-  | dir | file (b : Bytes) | symlink (t : Bytes) | fifo
+  | dir | file (b : Bytes) | symlink (t : Bytes) | fifo | special (s : Special)
   deriving DecidableEq, Repr
 
 def Node.kind : Node → Kind
@@ -36,8 +42,10 @@ def Node.kind : Node → Kind
   | .file b => .file b
   | .symlink t => .symlink t
   | .fifo => .fifo
+  | .special s => .special s
 
 abbrev ENOENT : Nat := 2
+abbrev ENXIO : Nat := 6
 abbrev EBADF : Nat := 9
 abbrev EBUSY : Nat := 16
 abbrev EEXIST : Nat := 17
@@ -82,6 +90,7 @@ def getAt : Node → List Name → Option Node
   | .file _, _ :: _ => none
   | .symlink _, _ :: _ => none
   | .fifo, _ :: _ => none
+  | .special _, _ :: _ => none
 
 /-- set (`some`) or delete (`none`) the node at a location whose parent is a directory -/
 def setAt : Node → List Name → Option Node → Node
@@ -96,6 +105,7 @@ def setAt : Node → List Name → Option Node → Node
   | .file b, _ :: _, _ => .file b
   | .symlink t, _ :: _, _ => .symlink t
   | .fifo, _ :: _, _ => .fifo
+  | .special s, _ :: _, _ => .special s
 
 def view (root : Node) (q : List Name) : Option Kind := (getAt root q).map Node.kind
 
@@ -149,6 +159,7 @@ def walk : Node → List Name → W
   | .symlink _, _ :: _ => .err .unmodelled
   | .file _, _ :: _ => .err (.os ENOTDIR)
   | .fifo, _ :: _ => .err (.os ENOTDIR)
+  | .special _, _ :: _ => .err (.os ENOTDIR)
 
 /-! ## syscalls (the assumed kernel contract) -/
 
@@ -188,6 +199,35 @@ def stat (st : FS) (p : Bytes) : Out Kind :=
     | .missing => .error (.os ENOENT)
     | .err e => .error e
 
+/-! ### `st_mode` and the `Metadata` predicates -/
+
+abbrev S_IFMT : Nat := 0o170000
+abbrev S_IFSOCK : Nat := 0o140000
+abbrev S_IFLNK : Nat := 0o120000
+abbrev S_IFREG : Nat := 0o100000
+abbrev S_IFBLK : Nat := 0o060000
+abbrev S_IFDIR : Nat := 0o040000
+abbrev S_IFCHR : Nat := 0o020000
+abbrev S_IFIFO : Nat := 0o010000
+
+/-- the `st_mode` the kernel reports for a node: its file-type code (an ENUMERATION in the S_IFMT field, not a flag
+set) or-ed with permission bits (0o755 for what `mkdir` creates, 0o644 otherwise — the model tracks no permissions) -/
+def Kind.stMode : Kind → Nat
+  | .dir => S_IFDIR ||| 0o755
+  | .file _ => S_IFREG ||| 0o644
+  | .symlink _ => S_IFLNK ||| 0o777
+  | .fifo => S_IFIFO ||| 0o644
+  | .special .sock => S_IFSOCK ||| 0o755
+  | .special .chr => S_IFCHR ||| 0o644
+  | .special .blk => S_IFBLK ||| 0o644
+
+/-- `Metadata::is_dir`: `Mode::from(st_mode) & Mode::S_IFMT == Mode::S_IFDIR` -/
+def metaIsDir (mode : Nat) : Bool := mode &&& S_IFMT == S_IFDIR
+/-- `Metadata::is_file`: `Mode::from(st_mode) & Mode::S_IFMT == Mode::S_IFREG` -/
+def metaIsFile (mode : Nat) : Bool := mode &&& S_IFMT == S_IFREG
+/-- `Metadata::is_symlink`: `Mode::from(st_mode) & Mode::S_IFMT == Mode::S_IFLNK` -/
+def metaIsSymlink (mode : Nat) : Bool := mode &&& S_IFMT == S_IFLNK
+
 /-- an open file description: where it points, whether it is a directory, its flags and offset -/
 structure Handle where
   loc : List Name
@@ -215,6 +255,12 @@ def openat (st : FS) (p : Bytes) (flags : Nat) : FS × Out Handle :=
       else if hasBit flags O_NOFOLLOW then (st, .error (.os ELOOP))
       else (st, .error .unmodelled)
     | .found .fifo => (st, .error .unmodelled)
+    | .found (.special .sock) =>          -- a socket cannot be opened: ENXIO, after the checks every non-directory gets
+      if creat && excl then (st, .error (.os EEXIST))
+      else if creat && tr then (st, .error (.os EISDIR))
+      else if tr || hasBit flags O_DIRECTORY then (st, .error (.os ENOTDIR))
+      else (st, .error (.os ENXIO))
+    | .found (.special _) => (st, .error .unmodelled)     -- opening a device node: the driver's business
     | .found (.dir _) =>
       if creat && excl then (st, .error (.os EEXIST))
       else if creat || acc ≠ 0 || hasBit flags O_TRUNC then (st, .error (.os EISDIR))
@@ -299,7 +345,10 @@ def unlinkatN (d : Node) (name : Name) (removedir : Bool) : Node × Out Unit :=
 /-! ### getdents64 -/
 
 abbrev DT_FIFO : Nat := 1
+abbrev DT_CHR : Nat := 2
 abbrev DT_DIR : Nat := 4
+abbrev DT_BLK : Nat := 6
+abbrev DT_SOCK : Nat := 12
 abbrev DT_REG : Nat := 8
 abbrev DT_LNK : Nat := 10
 
@@ -315,6 +364,9 @@ def Node.dtype : Node → Nat
   | .file _ => DT_REG
   | .symlink _ => DT_LNK
   | .fifo => DT_FIFO
+  | .special .sock => DT_SOCK
+  | .special .chr => DT_CHR
+  | .special .blk => DT_BLK
 
 /-- the entries a directory stream returns (order is the file system's; here: list order) -/
 def dirRecs (es : List (Name × Node)) : List Rec :=
@@ -511,6 +563,22 @@ def copyFileOld (st : FS) (src dst : Bytes) (script : List Nat) : FS × Out Unit
         | (st1, .error e) => (st1, .error e)
         | (st1, .ok d) => copyLoopOld st1 h d size 0 script
 
+/-! ### metadata / exists -/
+
+/-- `fs::metadata(path)` seen through `Metadata::{is_dir, is_file, is_symlink}` and, for a regular file, `len` -/
+def fsMetadata (st : FS) (p : Bytes) : Out (Bool × Bool × Bool × Option Nat) :=
+  match stat st p with
+  | .error e => .error e
+  | .ok k =>
+    .ok (metaIsDir k.stMode, metaIsFile k.stMode, metaIsSymlink k.stMode,
+         match k with | .file b => some b.length | _ => none)
+
+/-- `fs::exists(path)`: ENOENT is `Ok(false)`, any other error is returned -/
+def fsExists (st : FS) (p : Bytes) : Out Bool :=
+  match stat st p with
+  | .ok _ => .ok true
+  | .error e => if e = .os ENOENT then .ok false else .error e
+
 /-! ### create_dir_all -/
 
 /-- repaired code's `mkdir_or_exists`: `Ok(None)` created, `Ok(Some(EEXIST))` something is there -/
@@ -555,8 +623,7 @@ def writeAllSubPaths (st : FS) (buf : Bytes) : FS × Out Unit :=
       | (st3, .ok true) =>
         match stat st3 buf with
         | .error e => (st3, .error e)
-        | .ok .dir => (st3, .ok ())
-        | .ok _ => (st3, .error (.os EEXIST))
+        | .ok k => if metaIsDir k.stMode then (st3, .ok ()) else (st3, .error (.os EEXIST))
 
 /-- `create_dir_all`: both arms of the 512-byte stack/heap split run the same walk over a copy of the path -/
 def createDirAll (st : FS) (p : Bytes) : FS × Out Unit :=
@@ -721,6 +788,7 @@ def depth : Node → Nat
   | .file _ => 0
   | .symlink _ => 0
   | .fifo => 0
+  | .special _ => 0
 def depthL : List (Name × Node) → Nat
   | [] => 0
   | (_, x) :: r => max (depth x) (depthL r)
